@@ -108,7 +108,10 @@ bool rsValuesFacet::SetBasicText(const EntityUID target, const TextInterpretatio
   } else if (!IsBaseSet(core.GetRS(target).type)) {
     return false;
   } else {
-    const auto dataChange = std::ssize(newInterp) != std::ssize(*TextFor(target));
+    const auto* oldInterp = TextFor(target);
+    const auto dataChange = std::ssize(newInterp) != std::ssize(*oldInterp) ||
+      !std::equal(std::begin(newInterp), std::end(newInterp), std::begin(*oldInterp),
+                  [](const auto& newText, const auto& oldText) noexcept { return newText.first == oldText.first; });
     if (!SetTextInternal(target, newInterp)) {
       return false;
     } else {
